@@ -175,7 +175,16 @@ def run(case):
         vb = big[pad:-pad, pad:-pad, pad:-pad]
         case.nontrivial(("clip", p["iseed"]))
         case.check(bool(np.all(np.isfinite(va))), "clipped simulation has non-finite voxels")
-        e = float(np.abs(va - vb).max()) / amp
+        dv = np.abs(va - vb) / amp
+        if order == 0:
+            # nearest-neighbour sampling: pos and pos+pad round differently in float32, so a sample that falls on a
+            # half-integer boundary may take the neighbouring voxel in one of the two runs; a clipping defect moves
+            # or loses whole slabs, never fewer than a face of voxels
+            nflip = int((dv > 1e-4).sum())
+            case.maxobs("max_clip_nn_flips", nflip)
+            if nflip <= 3:
+                dv = np.where(dv > 1e-4, 0.0, dv)
+        e = float(dv.max())
         case.maxobs("max_clip_err", e)
         case.decided += va.size // 16
         case.check(e <= (2e-3 if order else 1e-4), "clipping: simulate(S,pos) != simulate(S+2p,pos+p)[p:-p]",
